@@ -2,11 +2,12 @@ from check import run_diff_property
 import lib
 
 CFG = dict(
-    streams=[('ja4', 3000, 40000), ('e2e', 150, 2500), ('rw', 800, 12000)],
-    oracle_ops={'ja4spec', 'e2e', 'rwspec05'},
-    twophase_ops={'e2e'},
-    project={'e2e': lib.proj_e2e({'ja4', 'st'})},
-    ops_filter={'ser', 'ja4', 'ja4spec', 'e2e', 'rwspec05'},
+    streams=[('ja4', 3000, 40000), ('e2e', 150, 2500), ('rw', 800, 12000), ('e2emulti', 8, 150)],
+    race_streams={'e2emulti'},
+    oracle_ops={'ja4spec', 'e2e', 'rwspec05', 'e2emulti'},
+    twophase_ops={'e2e', 'e2emulti'},
+    project={'e2e': lib.proj_e2e({'ja4', 'st'}), 'e2emulti': lib.multi(f1=lib.proj_e2e({'ja4', 'st'}))},
+    ops_filter={'ser', 'ja4', 'ja4spec', 'e2e', 'rwspec05', 'e2emulti'},
     rule=("DELIVERY: the handler in-process with scripted injector sets (default three + custom, shuffled order, value / empty / "
           "error outcomes): what the backend receives under each injected name against Fp.Spec.Proxy.specValues. "
           "structured well-formed ClientHellos (cipher/extension lists 0..130 with GREASE forced first/last/only/all, known "
